@@ -242,7 +242,9 @@ void vec_div_mag(const char* tag, const V& a, T k) {
       vf::viol(std::string("tensor|") + tag + "/=number|" + vf::TName<T>::value + "|component" + std::to_string(i), "{\"operands\":" + vf::comps_hex(a) + "}");
   f128 s = 0;
   for (int i = 0; i < n; i++) s += (f128)c[i] * (f128)c[i];
-  if (vf::ulps<T>(a.Magnitude(), sqrtq(s)) > 1.0)
+  // exact where the root is itself an integer ("exactly on integer-valued inputs"), a few ulps otherwise
+  const f128 root = sqrtq(s);
+  if (root == floorq(root) ? !(a.Magnitude() == (T)root) : !(vf::ulps<T>(a.Magnitude(), root) <= 4.0))
     vf::viol(std::string("tensor|") + tag + ".Magnitude|" + vf::TName<T>::value, "{\"operands\":" + vf::comps_hex(a) + ",\"observed\":" + vf::jstr(vf::dec(a.Magnitude())) + "}");
 }
 
@@ -560,6 +562,32 @@ void real_inputs() {
     const D E(c[16], c[17], c[18], c[19], c[20], c[21], c[22], c[23], c[24]), F(c[25], c[26], c[27], c[28], c[29], c[0], c[2], c[4], c[6]);
     vec_pair<Tr, T>("Vector,Vector", a, b);
     vec_pair<Tr, T>("PlanarVector,PlanarVector", pa, pb);
+    // the same vectors many binades away (lengths 1e-18 .. 1e18, 1e-16 .. 1e16 in float): magnitude to 4 ulp of the exact root
+    for (int e : {-60, -40, -25, -18, 18, 25, 40, 60}) {
+      if (std::is_same_v<T, float> && (e > 55 || e < -55)) e = e > 0 ? 55 : -55;
+      const V as(std::ldexp(c[0], e), std::ldexp(c[1], e), std::ldexp(c[2], e));
+      const PV ps(std::ldexp(c[6], e), std::ldexp(c[7], e));
+      const f128 s3 = (f128)as.x() * as.x() + (f128)as.y() * as.y() + (f128)as.z() * as.z(), s2 = (f128)ps.x() * ps.x() + (f128)ps.y() * ps.y();
+      vf::stat("real_cases", 2);
+      if (!(vf::ulps<T>(as.Magnitude(), sqrtq(s3)) <= 4.0))
+        vf::viol(std::string("tensor|Vector.Magnitude|") + vf::TName<T>::value + "|scaled", "{\"operands\":" + vf::comps_hex(as) + ",\"observed\":" + vf::jstr(vf::dec(as.Magnitude())) + "}");
+      if (!(vf::ulps<T>(ps.Magnitude(), sqrtq(s2)) <= 4.0))
+        vf::viol(std::string("tensor|PlanarVector.Magnitude|") + vf::TName<T>::value + "|scaled", "{\"operands\":" + vf::comps_hex(ps) + ",\"observed\":" + vf::jstr(vf::dec(ps.Magnitude())) + "}");
+    }
+    // exactly singular tensors with non-integer components (a repeated column or row, one a power-of-two multiple of another):
+    // the inverse is absent exactly when Determinant() is zero - the two must be the same decision
+    {
+      const T u[3] = {c[0], c[1], c[2]}, w[3] = {c[3], c[4], c[5]};
+      const D sing[] = {D(u[0], u[0], w[0], u[1], u[1], w[1], u[2], u[2], w[2]),          D(u[0], w[0], u[0], u[1], w[1], u[1], u[2], w[2], u[2]),
+                        D(w[0], u[0], 2 * u[0], w[1], u[1], 2 * u[1], w[2], u[2], 2 * u[2]), D(u[0], u[1], u[2], u[0], u[1], u[2], w[0], w[1], w[2]),
+                        D(u[0], u[1], u[2], w[0], w[1], w[2], u[0] / 4, u[1] / 4, u[2] / 4), D(w[0], w[1], w[2], u[0], u[1], u[2], u[0], u[1], u[2])};
+      for (const D& M : sing) {
+        vf::stat("inverse_cases");
+        if (M.Inverse().has_value() != (M.Determinant() != (T)0))
+          vf::viol(std::string("tensor|Dyad.Inverse|") + vf::TName<T>::value + "|presence-disagrees-with-Determinant", "{\"tensor\":" + vf::comps_hex(M) + ",\"determinant\":" + vf::jstr(vf::hex(M.Determinant())) +
+                                                                                                                         ",\"inverse_present\":" + (M.Inverse().has_value() ? "true" : "false") + "}");
+      }
+    }
     vec_arith<Tr, T>("Vector", a, b, c[9]);
     vec_arith<Tr, T>("PlanarVector", pa, pb, c[5]);
     // direction-typed arguments (components are not integers): same formulas
